@@ -374,3 +374,105 @@ func Harness_C03ident(n int) {
 	}
 	symReach("end")
 }
+
+// ---- code blocks: where a block ends is decided by Go's lexical structure
+// (strings, raw strings, rune literals, comments, nested braces). A concrete
+// block holds a hole of symbolic bytes in one of those places, followed by text
+// that would unbalance the braces if the hole were delimited wrongly.
+
+type c03CodeForm struct {
+	pre, post string
+	kind      byte // '"' string content, '`' raw string content, '\'' rune literal, '/' line comment, '*' block comment, '{' braces
+}
+
+var c03CodeForms = []c03CodeForm{
+	{`{ return f("`, `", "}/b{"), nil }`, '"'},
+	{"{ return f(`", "`, \"}{\"), nil }", '`'},
+	{`{ return f('`, `', '}', "{"), nil }`, '\''},
+	{"{ x := 1 // ", "\n\treturn g(x, \"}\"), nil }", '/'},
+	{`{ x := 1 /* `, ` */ return g(x, '{'), nil }`, '*'},
+	{`{ if x { `, ` }; return "}", nil }`, '{'},
+}
+
+// c03StringContent: s is a sequence of ordinary characters and two-character
+// escapes \\ \" \n \t (content of an interpreted string; for a rune literal one such unit).
+func c03StringContent(s []byte, q byte, oneUnit bool) bool {
+	units := 0
+	for i := 0; i < len(s); i++ {
+		b := s[i]
+		if b < 0x20 || b >= 0x7f || b == q {
+			return false
+		}
+		if b == '\\' {
+			if i+1 >= len(s) {
+				return false
+			}
+			e := s[i+1]
+			if e != '\\' && e != q && e != 'n' && e != 't' {
+				return false
+			}
+			i++
+		}
+		units++
+	}
+	return !oneUnit || units == 1
+}
+
+// Harness_C03code: arg = 8*form + number of symbolic bytes.
+func Harness_C03code(arg int) {
+	f, n := c03CodeForms[arg/8], arg%8
+	hole := symBytes("c", n)
+	switch f.kind {
+	case '"':
+		symAssume(c03StringContent(hole, '"', false))
+	case '\'':
+		symAssume(c03StringContent(hole, '\'', true))
+	case '`':
+		for _, b := range hole {
+			symAssume(b >= 0x20 && b < 0x7f && b != '`')
+		}
+	case '/':
+		for _, b := range hole {
+			symAssume(b >= 0x20 && b < 0x7f)
+		}
+	case '*':
+		for i, b := range hole {
+			symAssume(b >= 0x20 && b < 0x7f)
+			if i > 0 {
+				symAssume(!(hole[i-1] == '*' && b == '/'))
+			}
+		}
+		if n > 0 {
+			// the hole is followed by " */": a trailing '*' would still be fine, a leading '/' after "/* " too
+		}
+	case '{':
+		depth := 0
+		for _, b := range hole {
+			symAssume(b == '{' || b == '}' || b == ' ' || b == 'a' || b == ';')
+			if b == '{' {
+				depth++
+			}
+			if b == '}' {
+				depth--
+			}
+			symAssume(depth >= 0)
+		}
+		symAssume(depth == 0)
+	}
+	code := f.pre + string(hole) + f.post
+	text := []byte("A <- 'a' " + code + "\nB <- 'b'\n")
+	g, err := Parse("", text)
+	symAssert(err == nil, "C03: a code block in valid Go lexical structure was rejected")
+	if err == nil {
+		gr := g.(*ast.Grammar)
+		symAssert(len(gr.Rules) == 2 && gr.Rules[1].Name.Val == "B", "C03: the end of a code block was found at the wrong place (rules differ)")
+		if len(gr.Rules) >= 1 {
+			act, isAct := gr.Rules[0].Expr.(*ast.ActionExpr)
+			symAssert(isAct, "C03: the rule with a code block did not yield an action")
+			if isAct {
+				symAssert(symEqual(act.Code.Val, code), "C03: the text of the code block differs from the source text between its braces")
+			}
+		}
+	}
+	symReach("end")
+}
